@@ -21,6 +21,7 @@ import (
 	"github.com/ipfs/go-graphsync"
 	"github.com/ipfs/go-graphsync/ipldutil"
 	gsmsg "github.com/ipfs/go-graphsync/message"
+	"github.com/ipfs/go-graphsync/panics"
 	"github.com/ipfs/go-graphsync/peerstate"
 	"github.com/ipfs/go-graphsync/responsemanager/hooks"
 	"github.com/ipfs/go-graphsync/responsemanager/queryexecutor"
@@ -347,7 +348,7 @@ func (rm *ResponseManager) taskDataForKey(requestID graphsync.RequestID) queryex
 		Span:           response.span,
 		Empty:          false,
 		Request:        response.request,
-		Loader:         response.linkSystem.StorageReadOpener,
+		Loader:         panics.WrapStorageReadOpener(response.linkSystem.StorageReadOpener, panics.MakeHandler(rm.panicCallback)),
 		Traverser:      response.traverser,
 		Signals:        response.signals,
 		ResponseStream: response.responseStream,
